@@ -46,7 +46,8 @@ func c07Rules(tier string) []Rule {
 			G(`-^\$6\[\(\*state\.StateNode\)\.Labels\(\$4\)\["karpenter\.sh/nodepool"\]\] == nil$`),
 			G(`-^\$7\[\(\*state\.StateNode\)\.Labels\(\$4\)\["karpenter\.sh/nodepool"\]\] == nil$`),
 			G(`+^\(\*state\.StateNode\)\.ValidatePodsDisruptable\(\$4, \$1, \$5, \$3, \$2\)#1 == nil$`,
-				`+^lo\.Ternary\[error\]\(phi\(false\|\(\$9 == "eventual"\)\), state\.IgnorePodBlockEvictionError\(\(\*state\.StateNode\)\.ValidatePodsDisruptable\(.*\)#1\), \(\*state\.StateNode\)\.ValidatePodsDisruptable\(.*\)#1\) == nil$`),
+				`+^lo\.Ternary\[error\]\(phi\(false\|\(\$9 == "eventual"\)\), state\.IgnorePodBlockEvictionError\(\(\*state\.StateNode\)\.ValidatePodsDisruptable\(.*\)#1\), \(\*state\.StateNode\)\.ValidatePodsDisruptable\(.*\)#1\) == nil$`,
+				`+^state\.IgnorePodBlockEvictionError\(\(\*state\.StateNode\)\.ValidatePodsDisruptable\(\$4, \$1, \$5, \$3, \$2\)#1\) == nil$`),
 		)},
 		core.Custom{ID: "C07.MPT1b", Kind: "MPT", Run: c07EventualOverride},
 		core.Custom{ID: "C07.PROV1", Kind: "PROV", Run: func(w *core.World, id string) []core.Result {
@@ -270,7 +271,35 @@ func c07EventualOverride(w *core.World, id string) []core.Result {
 		if len(w.SitesOr(fn, regexp.MustCompile(`IgnorePodBlockEvictionError`), true, 1)) == 0 {
 			return []core.Result{core.OK(id, "MPT", construct, 0, "pod blockers are never overridden")}
 		}
-		return []core.Result{core.Bad(id, "MPT", construct, w.Pos(fn.Pos()), "pod-block errors are ignored through an unrecognised construct")}
+		// the override written as control flow (`e := err; if eventual { e = Ignore(err) }; if e != nil { return }`):
+		// a candidate is returned despite a pod-blocker error only under TerminationGracePeriod ≠ nil ∧ class == eventual,
+		// and the only error class ever ignored is PodBlockEvictionError of that validation
+		vpdErr := `\(\*state\.StateNode\)\.ValidatePodsDisruptable\(\$4, \$1, \$5, \$3, \$2\)#1`
+		var out []core.Result
+		sinks := w.ReturnSinks(fn, core.RetOK)
+		if len(sinks) == 0 {
+			return []core.Result{core.Bad(id, "MPT", construct, w.Pos(fn.Pos()), "vacuous: no success return")}
+		}
+		for _, g := range []core.Gate{
+			G(`+^`+vpdErr+` == nil$`, `-^\$4\.NodeClaim\.Spec\.TerminationGracePeriod == nil$`),
+			G(`+^`+vpdErr+` == nil$`, `+^\$9 == "eventual"$`),
+			G(`+^`+vpdErr+` == nil$`, `+^state\.IgnorePodBlockEvictionError\(`+vpdErr+`\) == nil$`),
+		} {
+			for _, sk := range sinks {
+				if !w.RetGuarded(sk, g) {
+					out = append(out, core.Bad(id, "MPT", construct+"⇐"+g.Text, w.InstrPos(sk.Ret), "a candidate is returned although its pods could not be validated, without {"+g.Text+"}"))
+				}
+			}
+		}
+		for _, st := range w.SitesOr(fn, regexp.MustCompile(`^call state\.Ignore`), true, 1) {
+			if r := w.RenderInstr(st); !regexp.MustCompile(`^call state\.IgnorePodBlockEvictionError\(` + vpdErr + `\)$`).MatchString(r) {
+				out = append(out, core.Bad(id, "MPT", construct, w.InstrPos(st), "an error class other than PodBlockEvictionError of the pod validation is ignored: "+clipStr(r, 100)))
+			}
+		}
+		if len(out) == 0 {
+			out = append(out, core.OK(id, "MPT", construct, len(sinks), "override ⇐ TerminationGracePeriod≠nil ∧ class==eventual, ignoring only PodBlockEvictionError (control-flow form)"))
+		}
+		return out
 	}
 	args := tern.Call.Args
 	cond := w.RenderD(args[0], 8)
